@@ -40,6 +40,7 @@ func (g *customGen[V]) value(t *T) V {
 func (g *customGen[V]) maybeValue(t *T) (V, bool) {
 	parent := t
 	t = newT(t.tb, t.s, flags.debug, nil)
+	t.parent = parent
 	defer t.cleanup()
 
 	finished := false
@@ -47,15 +48,10 @@ func (g *customGen[V]) maybeValue(t *T) (V, bool) {
 		if r := abnormalEnd(recover(), finished); r != nil {
 			if _, ok := r.(invalidData); !ok {
 				t.cleanupAfterFailure()
-				if msg, ok := r.(stopTest); ok {
-					// like a failure signalled on the T of the property itself,
-					// this one is on record even if the panic is recovered on its way up
-					parent.fail(false, string(msg))
-				}
 				panic(r)
 			}
-			t.cleanup()
-			t.failOnError() // a failure signalled from a cleanup of the skipped attempt is still a failure
+			t.cleanupAfterFailure() // a Cleanup function that skips as well can not hide what the remaining ones signal
+			t.failOnError()         // a failure signalled from a cleanup of the skipped attempt is still a failure
 			if r == invalidData(overrunMsg) {
 				panic(r) // an exhausted bitstream stays exhausted: another attempt can not succeed
 			}
